@@ -32,16 +32,19 @@ const (
 // ---- server side: echo handler per stream
 
 type poolServer struct {
-	ln       *Listener
-	path     string
-	tag      uint32 // echoed in the flags field of every reply: tells which listener served the request
-	streams  int64
-	replies  int64
-	closedBy int64
-	closing  int64    // server-side closes announced by a reply but not yet performed
-	flushed2 sync.Map // request id -> true once the second flush of a two-flush reply returned
-	wg       sync.WaitGroup
-	stop     uint32
+	ln           *Listener
+	path         string
+	tag          uint32 // echoed in the flags field of every reply: tells which listener served the request
+	streams      int64
+	replies      int64
+	closedBy     int64
+	closing      int64    // server-side closes announced by a reply but not yet performed
+	flushed2     sync.Map // request id -> true once the second flush of a two-flush reply returned
+	seen         sync.Map // *Session -> true: every session the listener ever held (sampled)
+	sessionsSeen int64
+	stopSampler  chan struct{}
+	wg           sync.WaitGroup
+	stop         uint32
 }
 
 func (ps *poolServer) OnNewStream(s *Stream) {
@@ -133,6 +136,23 @@ func startPoolServerAt(path string, tag uint32, run bool) (*poolServer, error) {
 		return nil, err
 	}
 	ps.ln = ln
+	ps.stopSampler = make(chan struct{})
+	go func() { // samples the listener's session table: counts every session it ever held
+		for {
+			for _, s := range ps.sessionList() {
+				if _, old := ps.seen.LoadOrStore(s, true); !old {
+					atomic.AddInt64(&ps.sessionsSeen, 1)
+				}
+			}
+			ps.ln.mu.Lock()
+			closed := ps.ln.isClose
+			ps.ln.mu.Unlock()
+			if closed {
+				return
+			}
+			time.Sleep(500 * time.Microsecond)
+		}
+	}()
 	ln.SetUnlinkOnClose(false)
 	if run {
 		go ln.Run()
